@@ -29,6 +29,12 @@ pub struct CCfg {
     /// drop-policy scenarios: stop() right after the burst, without draining (the exit marker then
     /// goes through the policy on a full queue; only conservation is judged)
     pub no_drain: bool,
+    /// reducer-running variants: two of three actions' first reducer returns an Effect::Action (a follow-up
+    /// action the store dispatches to itself from its pool)
+    pub followups: bool,
+    /// gated burst: close() is called while the reducer is still parked and the queue is full, then one
+    /// more dispatch is made; neither may wait for the reducer
+    pub close_parked: bool,
 }
 
 pub fn gen(rng: &mut Rng, tiny: bool, focus: &str) -> CCfg {
@@ -50,19 +56,30 @@ pub fn gen(rng: &mut Rng, tiny: bool, focus: &str) -> CCfg {
     let per_prod = (total + n_prod - 1) / n_prod;
     let policy = if c05 { POL_BLOCK } else { rng.range(1, 2) as u8 };
     let n_ep = if c05 { 3 } else { 3 };
+    let n_red = rng.range(1, 2) as u32;
+    let n_mw = rng.below(2) as u32;
+    let ep = (0..4).map(|_| rng.below(n_ep) as u32).collect();
+    let perturb = if gated { rng.below(2) as u8 } else { 2 };
+    let grace_us = if tiny { 0 } else { *rng.pick(&[0u64, 200, 1000, 3000]) };
+    let no_drain = !c05 && rng.chance(1, 3);
+    let long_stall_ms = if cfg!(miri) { 40_000 } else if !tiny && variant == 0 && rng.chance(1, 800) { *rng.pick(&[1100u64, 2300, 3600]) } else { 0 };
+    let close_parked = variant == 2 && rng.chance(1, 4);
+    let followups = (variant == 1 || (variant == 3 && !no_drain)) && rng.chance(1, 2);
     CCfg {
         variant,
         policy,
         cap,
-        n_red: rng.range(1, 2) as u32,
-        n_mw: rng.below(2) as u32,
+        n_red,
+        n_mw,
         n_prod,
-        per_prod,
-        ep: (0..4).map(|_| rng.below(n_ep) as u32).collect(),
-        perturb: if gated { rng.below(2) as u8 } else { 2 },
-        grace_us: if tiny { 0 } else { *rng.pick(&[0u64, 200, 1000, 3000]) },
-        no_drain: !c05 && rng.chance(1, 3),
-        long_stall_ms: if cfg!(miri) { 40_000 } else if !tiny && variant == 0 && rng.chance(1, 800) { *rng.pick(&[1100u64, 2300, 3600]) } else { 0 },
+        per_prod: if followups && variant == 3 && cap < 1000 { per_prod * 3 } else { per_prod },
+        ep,
+        perturb,
+        grace_us,
+        no_drain,
+        long_stall_ms,
+        followups,
+        close_parked,
     }
 }
 
@@ -80,17 +97,24 @@ pub fn describe(c: &CCfg) -> J {
         ("grace_us", J::U(c.grace_us)),
         ("long_stall_ms", J::U(c.long_stall_ms)),
         ("stop_without_draining", J::B(c.no_drain)),
+        ("close_and_dispatch_while_reducer_parked_on_full_queue", J::B(c.close_parked)),
+        ("two_of_three_actions_return_effect_action", J::B(c.followups)),
     ])
 }
 
 const MARK_GIVEUP: u32 = 900;
+/// x = 1: every follow-up action issued so far was taken or counted as dropped, nothing queued, reducer idle
+const MARK_FOLLOWUPS: u32 = 6;
+const FOLLOWUP_SCRIPT: u32 = 3;
 
 pub fn execute(c: &CCfg, seed: u64) -> W {
     let gated = c.variant == 0 || c.variant == 2;
     // script 0: every action parks reducer 0 at gate 0 (stepper); script 1: plain; script 2: plug
     let mut stepper = Script::plain();
     stepper.rgate = 0;
-    let scripts = vec![stepper.clone(), Script::plain(), stepper];
+    let mut parent = Script::plain();
+    parent.eff[0] = Some(EffSpec { kind: EK_ACTION, follow_script: 1, n_follow: 1, panic: false, gate: NOGATE });
+    let scripts = vec![stepper.clone(), Script::plain(), stepper, parent];
     let ctx = Ctx::new(ScriptSrc::Table(scripts), 2, seed, c.perturb, false);
     let w = W::new(ctx, vec![StoreCfg { policy: c.policy, cap: c.cap, n_red: c.n_red, n_mw: c.n_mw, name: "rsvc".into(), ctor: 0 }]);
     let notified = std::sync::Arc::new(Counter::new());
@@ -107,9 +131,10 @@ pub fn execute(c: &CCfg, seed: u64) -> W {
     };
     let start_burst_c = Counter::new();
     std::thread::scope(|sc| {
-        let script_for = |_p: usize, _k: usize| -> u32 {
+        let script_for = |_p: usize, k: usize| -> u32 {
             match c.variant {
                 0 => 0,
+                _ if c.followups && k % 3 != 1 => FOLLOWUP_SCRIPT,
                 _ => 1,
             }
         };
@@ -184,7 +209,22 @@ pub fn execute(c: &CCfg, seed: u64) -> W {
                     std::thread::sleep(std::time::Duration::from_micros(c.grace_us));
                 }
                 w.mark(3, 0);
-                gate.open();
+                if c.close_parked {
+                    let w = &w;
+                    std::thread::scope(|s2| {
+                        std::thread::Builder::new().name("closer".into()).spawn_scoped(s2, move || w.stop(0, STOP_CLOSE)).unwrap();
+                        // probe once close() has returned; if it has not after a while, probe anyway (the
+                        // probe then races close(): the conservation check is skipped for such a run)
+                        let t0 = std::time::Instant::now();
+                        while crate::fam_a::count_kind(w, K::StopRet, STOP_CLOSE) == 0 && t0.elapsed().as_millis() < 100 {
+                            std::thread::yield_now();
+                        }
+                        w.dispatch(0, c.ep[0], Act { id: act_id(0, 51, 1), script: 1 });
+                        gate.open();
+                    });
+                } else {
+                    gate.open();
+                }
             }
             _ => {}
         }
@@ -193,7 +233,7 @@ pub fn execute(c: &CCfg, seed: u64) -> W {
         }
         // drain before stop so that the exit marker's own (legitimate, counted) eviction does not
         // blur the survivor set: wait for the reducer to go idle on the expected number of actions
-        if c.policy != POL_BLOCK && !c.no_drain {
+        if c.policy != POL_BLOCK && !c.no_drain && !c.close_parked {
             if c.variant == 2 {
                 // every survivor of the burst notifies the sentinel (scripts are plain Dispatch)
                 let expect = 1 + (c.cap as u64).min(total);
@@ -216,6 +256,16 @@ pub fn execute(c: &CCfg, seed: u64) -> W {
                     std::thread::yield_now();
                 }
             }
+        }
+        if c.followups && c.policy != POL_BLOCK {
+            // exact quiescence: the sentinel has been told about every action taken, and received + dropped
+            // accounts for every client action plus every follow-up issued (none queued, none in a thunk)
+            let settled = crate::fam_a::wait_until(|| {
+                let m = w.metrics(0);
+                let issued = crate::fam_a::count_where(&w, |e| e.k == K::RBeg && e.idx == 0 && e.z == FOLLOWUP_SCRIPT);
+                notified.get() == m[0] && m[0] + m[1] >= total + issued && notified.get() == w.metrics(0)[0]
+            });
+            w.mark(MARK_FOLLOWUPS, settled as u64);
         }
         w.mark(4, 0);
         w.stop(0, STOP_STOP);
@@ -273,7 +323,9 @@ pub fn c05(h: &Hist, s: u8, v: &mut Verdicts) {
     let mut pending: HashSet<u32> = HashSet::new();
     let mut blocked_then_returned = 0u64;
     for e in h.evs.iter().filter(|e| e.store == s) {
-        if first_of.contains_key(&e.seq) {
+        // (follow-up actions the store dispatches to itself have no recorded dispatch call: not counted
+        // on either side)
+        if first_of.get(&e.seq).map(|a| h.disp.contains_key(a)).unwrap_or(false) {
             taken += 1;
         }
         match e.k {
@@ -421,11 +473,24 @@ pub fn c06(h: &Hist, w: &W, s: u8, v: &mut Verdicts) {
     let open_calls: Vec<&(u32, DispRec)> = burst.iter().filter(|(_, d)| d.ret < close_inv).collect();
     let survivors = open_calls.iter().filter(|(a, _)| in_t.contains(a)).count() as u64;
     let plug = h.disp.keys().filter(|a| id_producer(**a) == 50 && in_t.contains(a)).count() as u64;
-    if let Some(dm) = dropped_metric {
+    // follow-ups the store dispatched to itself (Effect::Action of a first reducer): one per completed parent
+    let issued = sh.acts.iter().filter(|(a, ar)| id_gen(**a) == 0 && ar.reduces.iter().any(|r| r.ridx == 0 && r.end != INF && matches!(h.ctx.script(r.z).eff[0], Some(e) if e.kind == EK_ACTION))).count() as u64;
+    let followups_taken = sh.taken.iter().filter(|a| id_gen(**a) != 0).count() as u64;
+    let settled = h.evs.iter().any(|e| e.k == K::Mark && e.idx == MARK_FOLLOWUPS && e.x == 1);
+    // the probe of the close-while-parked scenario: usually made after close() returned (rejected); if it
+    // overlapped close() it may have gone through the policy
+    let closing = sh.stops.iter().filter(|r| r.how == STOP_CLOSE).map(|r| r.ret).min();
+    let probe_raced = h.disp.iter().any(|(a, d)| id_producer(*a) == 51 && closing.map(|c| d.inv < c).unwrap_or(true));
+    if probe_raced {
+        v.count("c06.probe_overlapped_close", 1);
+    } else if issued > 0 && !settled {
+        v.inconcl("C06", "follow-up actions were still in flight when stop() was invoked".into());
+    } else if let Some(dm) = dropped_metric {
         if open_calls.len() == burst.len() {
-            let lost = burst.len() as u64 - survivors;
+            let lost = burst.len() as u64 + issued - survivors - followups_taken;
+            v.count("c06.self_dispatched_followups", issued);
             if dm != lost {
-                v.fail("C06", format!("store {} ({}, capacity {}): {} actions were dispatched while open, {} taken by the reducer, but action_dropped = {} (expected {})", s, pol, cap, burst.len(), survivors, dm, lost));
+                v.fail("C06", format!("store {} ({}, capacity {}): {} actions were dispatched while open (+ {} follow-ups the store dispatched to itself), {} taken by the reducer, but action_dropped = {} (expected {})", s, pol, cap, burst.len(), issued, survivors + followups_taken, dm, lost));
             }
             discards = discards.max(lost);
             v.count("c06.conservation_checked", 1);
